@@ -464,9 +464,11 @@ var (
 	c26TagVals  = []string{"web", "db", "", "web-1", "a|b", "a", "xweb"}
 	c26NamePats = []string{"foo", "bar", "foo|bar", "a|b", "|a", "a|", "^foo", "foo$", "^foo$", "^a|b$", "[a-f]+", "fo+", "foo-[0-9]", "[^x]*", ".",
 		"a*", "(a|b)x?", "fo{2}", ".*", ".+", "x*", "(?i)FOO", "(?m)^a$", "(?s)a.b", "a.b", "node.1", `node\.1`, "foo.*", ".*bar", "f|foobar", "(foo|bar)", "(?:a|b)|x",
-		"(", "[a", "*", "a)", "a)|(?:b", "x)|(?:", `\`, "a{2,1}", "(?P<n>", "foo)|(?:bar", "+", "a**", ")(", `a\`, "(?i"}
-	c26StatusPats = []string{"", "", "", "alive", "alive|left", "l.*", "fail", "failed|leaving", "(", "a", "live", "^left$", "alive)|(?:x", ".*", "none"}
-	c26TagPats    = []string{"web", "web|db", "", "w.*", "db|", "(", "a|b", `a\|b`, "web-[0-9]", "[a", "web)|(?:x", ".+", "x?web", "eb"}
+		"(", "[a", "*", "a)", "a)|(?:b", "x)|(?:", `\`, "a{2,1}", "(?P<n>", "foo)|(?:bar", "+", "a**", ")(", `a\`, "(?i",
+		// regexp syntax that consists of backslash escapes only (no other metacharacter)
+		`foo-\d`, `\Qfoo-1\E`, `\x66oo`, `a\w`, `\Qnode.1\E`, `x\Sar`, `\pL`, `foo\b`, `\Afoo`, `foo\z`, `\D`}
+	c26StatusPats = []string{"", "", "", "alive", "alive|left", "l.*", "fail", "failed|leaving", "(", "a", "live", "^left$", "alive)|(?:x", ".*", "none", `aliv\w`, `le\Dt`, `\Qfailed\E`}
+	c26TagPats    = []string{"web", "web|db", "", "w.*", "db|", "(", "a|b", `a\|b`, "web-[0-9]", "[a", "web)|(?:x", ".+", "x?web", "eb", `we\w`, `\Qweb\E`, `web-\d`, `\x61`}
 )
 
 func c26HasOp(p string) bool { return strings.ContainsAny(p, "|*+?.[(^$\\{") }
